@@ -169,6 +169,7 @@ func cmdDump(args []string) {
 	tmo := fs.Int("timeout", 10, "solver timeout (s)")
 	keep := fs.Bool("keep", false, "keep scratch files")
 	verbose := fs.Bool("v", false, "print models")
+	files := fs.Bool("files", false, "print the query file of the last instance of every obligation (with -keep)")
 	fs.Parse(args)
 	p, err := loadProg(*repo, *verif)
 	if err != nil {
@@ -222,6 +223,13 @@ func cmdDump(args []string) {
 	rs := solveAll(obs, sv, 16)
 	for _, n := range aggregate(rs) {
 		fmt.Printf("%-11s %-70s inst=%d %.2fs %v\n", n.Status, n.Name, n.Instances, n.Time, n.Solvers)
+		if *files {
+			for i := range rs {
+				if rs[i].O.Name == n.Name {
+					fmt.Printf("     instance at line %d: %s\n", rs[i].O.Pos.Line, rs[i].Res.File)
+				}
+			}
+		}
 		if n.Failing != nil {
 			fmt.Printf("     at %s:%d  [%s] file=%s tried=%v\n", filepath.Base(n.Failing.O.Pos.Filename), n.Failing.O.Pos.Line, n.Failing.Res.Status, n.Failing.Res.File, n.Failing.Res.Tried)
 			if n.Failing.Res.Status == "sat" {
